@@ -270,7 +270,7 @@ theorem act_spec (cfg : Cfg) (lb : St) (op : Op) (h : Full cfg lb.sub)
     (∀ ep ∈ resEps (act cfg lb op).2, ep ∈ E (act cfg lb op).1.sub) := by
   have hnil : ∀ x, x ∈ resEps ([] : List ResV) → x ∈ E (act cfg lb op).1.sub := fun x hx => by cases hx
   cases op with
-  | opn => exact ⟨h, ⟨rfl, rfl, rfl⟩, fun x hx => by cases hx⟩
+  | opn => exact ⟨h.feed ⟨[], []⟩, ⟨rfl, rfl, rfl⟩, fun x hx => by cases hx⟩
   | loaded l e =>
     have hi := hload l e rfl
     obtain ⟨a, b, c, d⟩ := load_spec cfg (feed lb e) (h.feed e) (hpre hi) l
